@@ -59,6 +59,7 @@ type lm struct {
 	tainted         bool             // a known finding broke conservation for good in this world
 	stuck           error
 	clipped         map[string]bool // addresses whose checkpointed net was negative at some truncation (C07)
+	orphanEver      bool            // some delivery in this history was answered "parent missing" (a vertex was parked)
 	genesisIssuerIn bool            // some transfer targets the genesis issuer address
 	pendingCreated  []lmCreated
 	twinsDiverged   bool
@@ -241,6 +242,7 @@ func (m *lm) observe(opDesc string) {
 		}
 		if len(s.Parked) > 0 {
 			m.label("state:parked-orphans")
+			m.orphanEver = true
 		}
 		for _, pc := range m.pendingCreated {
 			if pc.n == i {
@@ -720,6 +722,9 @@ func (m *lm) stuckViol(what string, err error) {
 
 func (m *lm) noteResult(prop string, r sim.Result, what string) {
 	m.label("result:" + what + ":" + errClass(r.Err))
+	if errClass(r.Err) == "parent-missing" {
+		m.orphanEver = true // from now on a node's own retry ticker may admit, re-park or drop a vertex at any moment
+	}
 	if r.Err == nil {
 		return
 	}
@@ -1159,7 +1164,8 @@ func (m *lm) opBalance() string {
 	after, err := m.w.Snapshot(m.w.Nodes[n])
 	// with parked orphans the node's own 2 s retry ticker may admit or re-park one at any moment; only a ledger
 	// without parked vertices is guaranteed to be touched by nothing but the query
-	if err == nil && len(before.Parked) == 0 && after.Digest(true) != dBefore {
+	// (an empty parked list in the snapshot is not enough: the ticker may hold the popped vertex at that very moment)
+	if err == nil && len(before.Parked) == 0 && len(after.Parked) == 0 && !m.orphanEver && after.Digest(true) != dBefore {
 		m.addViol("C06", "query-changed-ledger", "node %d: balance query for %s changed the ledger snapshot", n, name)
 	}
 	return fmt.Sprintf("balance(node %d, %s)=%v", n, name, answers)
